@@ -1064,7 +1064,10 @@ class PDFType3Font(PDFSimpleFont):
         PDFSimpleFont.__init__(self, descriptor, widths, spec)
         self.matrix = cast(Matrix, tuple(list_value(spec.get("FontMatrix"))))
         (_, self.descent, _, self.ascent) = self.bbox
-        (self.hscale, self.vscale) = apply_matrix_norm(self.matrix, (1, 1))
+        # Glyph space to text space: a horizontal displacement (w, 0) scales
+        # by a, a vertical extent (0, h) by d; skew components do not add up.
+        (self.hscale, _) = apply_matrix_norm(self.matrix, (1, 0))
+        (_, self.vscale) = apply_matrix_norm(self.matrix, (0, 1))
 
     def __repr__(self) -> str:
         return "<PDFType3Font>"
